@@ -300,4 +300,9 @@ def r_polarity(ctx):
                           f"expected {show(final)[:240]}, found {[show(x)[:200] for x in got0]}", location)
 
 
-RULES = [r_tc_relation, r_polarity]
+def _base_store(ctx):
+    from rules import tasks as _t
+    _t.r_base_store(ctx)
+
+
+RULES = [r_tc_relation, r_polarity, _base_store]
